@@ -29,6 +29,9 @@ func main() {
 	commands["render"] = cmdRender
 	commands["gen"] = cmdGen
 	commands["lex"] = cmdLex
+	commands["total"] = cmdTotal
+	commands["worker"] = cmdWorker
+	commands["edits"] = cmdEdits
 	commands["relayout"] = cmdRelayout
 	commands["outcome"] = cmdOutcome
 	f, ok := commands[os.Args[1]]
